@@ -880,7 +880,9 @@ pub enum Schedule {
     /// Seeded choice, biased to switch between a check and the act it guards.
     Random(u64),
     /// `first` runs points[0] operations, the other runs points[1], `first` runs points[2] ...;
-    /// then `first` to its end, then the other.
+    /// the segment after the last listed one runs to that actor's end, then the other finishes.
+    /// So `[i]` is "first runs i operations, the other runs to its end, first finishes", and
+    /// `[]` is the sequential execution first-then-other.
     Preempt { first: u32, points: Vec<u32> },
 }
 
@@ -979,20 +981,16 @@ pub fn run_concurrent<T: Send + 'static>(
             Schedule::Preempt { first, points } => {
                 let other = ids.iter().copied().find(|a| a != first).unwrap_or(*first);
                 loop {
-                    if seg >= points.len() {
-                        // all segments used: first to its end, then the other
-                        break if parked.contains(first) { *first } else { lowest };
-                    }
                     if seg_left == 0 || !parked.contains(&seg_actor) {
+                        // next segment: the actors alternate; a segment without an explicit
+                        // length runs to that actor's end
                         seg += 1;
                         seg_actor = if seg % 2 == 0 { *first } else { other };
                         seg_left = points.get(seg).copied().unwrap_or(u32::MAX);
-                        if seg >= points.len() {
-                            continue;
-                        }
                         if !parked.contains(&seg_actor) {
-                            // that actor is finished; give the turn to whoever is left
-                            break lowest;
+                            // that actor has finished: whoever is left takes the rest
+                            seg_actor = lowest;
+                            seg_left = u32::MAX;
                         }
                         continue;
                     }
